@@ -780,6 +780,131 @@ fn canonicity_samples(run: &mut Run, rng: &mut Rng, street: usize, n: usize) {
     }
 }
 
+/// card-by-card suit relabeling (card = 4*rank + suit), written without the lane trick of `relabel`
+fn relabel_cards(h: u64, p: &[u32; 4]) -> u64 {
+    cards_of(h).iter().fold(0u64, |acc, &c| acc | 1u64 << (4 * (c as u64 / 4) + p[(c % 4) as usize] as u64))
+}
+
+/// Orbit oracle, independent of any canonical-form specification: for sampled and structured
+/// observations the orbit under the 24 suit relabelings is enumerated here; EXACTLY ONE distinct
+/// member must be accepted by the real `Isomorphism::is_canonical`, and the real `Isomorphism::from`
+/// of every member must be that member.
+/// Structured shapes: (A) pocket pair in suits a,b above a board with two cards in each of a and b that
+/// share the low card and differ in the high card; (B) 3+2 boards; (C) nested ranks with an offsuit
+/// pocket in a,b; (D) boards tied in a,b with the pocket elsewhere; plus random observations.
+fn orbit_oracle(run: &mut Run, rng: &mut Rng, street: usize, n: usize) {
+    use robopoker::cards::isomorphism::Isomorphism;
+    let deck = full_deck();
+    let nb = n_board(street);
+    let perms = perms4();
+    let ranks: Vec<u64> = cards_of(deck & SUIT0).iter().map(|c| (*c / 4) as u64).collect();
+    let card = |r: u64, s: u64| 1u64 << (4 * r + s);
+    for i in 0..n {
+        let mut sorted = {
+            // four distinct ranks in increasing order
+            let mut v: Vec<u64> = vec![];
+            while v.len() < 4 {
+                let r = ranks[rng.below(ranks.len() as u64) as usize];
+                if !v.contains(&r) { v.push(r); }
+            }
+            v.sort();
+            v
+        };
+        let a = rng.below(4);
+        let b = (a + 1 + rng.below(3)) % 4;
+        let (lo, h1, h2, top) = (sorted[0], sorted[1], sorted[2], sorted[3]);
+        let shape = if nb < 4 { 0 } else { i % 5 };
+        let (p, mut bd) = match shape {
+            1 => (card(top, a) | card(top, b), card(lo, a) | card(lo, b) | card(h1, a) | card(h2, b)),
+            2 => (card(top, a) | card(top, b), card(lo, a) | card(h1, a) | card(h2, a) | card(lo, b) | card(h1, b)),
+            3 => (card(top, a) | card(h2, b), card(lo, a) | card(lo, b) | card(h1, a) | card(h2, a)),
+            4 => {
+                let others: Vec<u64> = (0..4).filter(|s| *s != a && *s != b).collect();
+                (card(top, others[0]) | card(top, others[1]), card(lo, a) | card(lo, b) | card(h1, a) | card(h2, b))
+            }
+            _ => {
+                let p = rng.cards(2, deck);
+                (p, rng.cards(nb, deck & !p))
+            }
+        };
+        sorted.clear();
+        if (bd.count_ones() as usize) > nb {
+            // too many cards for this street (shape 2 on the turn): drop the highest board card
+            bd &= !(1u64 << (63 - bd.leading_zeros()));
+        }
+        if (bd.count_ones() as usize) < nb {
+            bd |= rng.cards(nb - bd.count_ones() as usize, deck & !p & !bd);
+        }
+        if p.count_ones() != 2 || bd.count_ones() as usize != nb || p & bd != 0 || (p | bd) & !deck != 0 {
+            continue;
+        }
+        let mut members: Vec<(u64, u64)> = perms.iter().map(|q| (relabel_cards(p, q), relabel_cards(bd, q))).collect();
+        members.sort();
+        members.dedup();
+        run.evaluations += 1;
+        run.spec_checked += 1;
+        run.count(&format!("orbit-oracle street={street} shape={shape}"));
+        let ms = members.clone();
+        let res = catch(move || {
+            ms.iter()
+                .map(|&(mp, mb)| {
+                    let ob = Observation::from((Hand::from(mp), Hand::from(mb)));
+                    let can = Observation::from(Isomorphism::from(ob));
+                    (Isomorphism::is_canonical(&ob), (u64::from(*can.pocket()), u64::from(*can.public())))
+                })
+                .collect::<Vec<_>>()
+        });
+        let input = format!("{} orbit of pocket {p} board {bd} ({} members)", deck_name(), members.len());
+        let Some(res) = res else {
+            run.fail("canonicalisation-panics", &input, "a canonical form", "panic");
+            continue;
+        };
+        let accepted: Vec<(u64, u64)> = members.iter().zip(res.iter()).filter(|(_, r)| r.0).map(|(m, _)| *m).collect();
+        if accepted.len() != 1 {
+            run.fail("orbit-not-exactly-one-canonical-member", &input, "exactly one member accepted by is_canonical", &format!("{} accepted: {:?}", accepted.len(), accepted));
+            continue;
+        }
+        if let Some((m, r)) = members.iter().zip(res.iter()).find(|(_, r)| r.1 != accepted[0]) {
+            run.fail("canonical-form-not-the-orbit-representative", &format!("{input}, member {m:?}"), &format!("{:?}", accepted[0]), &format!("{:?}", r.1));
+        }
+    }
+}
+
+/// One pocket's complete segment of the class list without walking the iterator up to it: the boards
+/// of `pocket` accepted by the real `is_canonical` (real HandIterator) must be exactly the boards the
+/// enumeration written here accepts, and no two of them may lie in one suit-orbit.
+fn pocket_segment_oracle(run: &mut Run, street: usize, pocket: u64) {
+    use robopoker::cards::isomorphism::Isomorphism;
+    let op = format!("{} class segment of pocket {pocket} on street {street}", deck_name());
+    run.evaluations += 1;
+    run.spec_checked += 1;
+    run.count(&format!("pocket-segment street={street}"));
+    let got = catch(move || {
+        HandIterator::from((n_board(street), Hand::from(pocket)))
+            .filter(|b| Isomorphism::is_canonical(&Observation::from((Hand::from(pocket), *b))))
+            .map(u64::from)
+            .collect::<Vec<u64>>()
+    });
+    let Some(got) = got else {
+        run.fail("isomorphisms-panic", &op, "an iteration", "panic");
+        return;
+    };
+    let perms = perms4();
+    let mut keys: std::collections::HashMap<(u64, u64), u64> = Default::default();
+    for &b in &got {
+        if let Some(prev) = keys.insert(orbit_min(pocket, b, &perms), b) {
+            run.fail("isomorphisms-two-representatives-in-one-class", &op, "every class of the pocket once", &format!("boards {prev} and {b} are relabelings of each other and both accepted"));
+            break;
+        }
+    }
+    let want: Vec<u64> = Colex::new(full_deck() & !pocket, n_board(street)).filter(|&b| spec_is_canonical(pocket, b)).collect();
+    if want != got {
+        let i = want.iter().zip(got.iter()).position(|(x, y)| x != y).unwrap_or(want.len().min(got.len()));
+        run.fail("isomorphisms-item-differs-from-enumeration", &format!("{op} item {i}"),
+            &format!("{} classes, item {i} = {:?}", want.len(), want.get(i)), &format!("{} classes, item {i} = {:?}", got.len(), got.get(i)));
+    }
+}
+
 /// one pocket's segment of the class list: the canonical boards for `pocket`, first `n` (real
 /// HandIterator + real is_canonical + real Isomorphism::from vs the model `isopocket` op)
 fn iso_pocket_case(run: &mut Run, street: usize, pocket: u64, n: usize) {
@@ -1064,6 +1189,7 @@ fn main() {
     for st in 0..4usize {
         iso_oracle_case(&mut run, st, npre);
         canonicity_samples(&mut run, &mut rng, st, if thorough { 40_000 } else { 6_000 });
+        orbit_oracle(&mut run, &mut rng, st, if thorough { 200_000 } else { 20_000 });
     }
     {
         let low = full.trailing_zeros() as u64;
@@ -1074,6 +1200,19 @@ fn main() {
             for &pk in &[pair_hs, suited, offsuit] {
                 iso_pocket_case(&mut run, st, pk, if thorough { 5_000 } else { 400 });
             }
+        }
+        // complete class segments of pocket pairs in hearts and spades (a mid rank and the top rank),
+        // far into the iteration: every board of the pocket, turn (and river for the top pair)
+        let mid = 0b1100u64 << (low + 12);
+        let top_pair = 0b1100u64 << 48;
+        for &pk in &[mid, top_pair] {
+            pocket_segment_oracle(&mut run, 2, pk);
+        }
+        pocket_segment_oracle(&mut run, 3, top_pair);
+        if thorough {
+            pocket_segment_oracle(&mut run, 3, mid);
+            pocket_segment_oracle(&mut run, 3, offsuit);
+            pocket_segment_oracle(&mut run, 2, suited);
         }
     }
     entry_point_cases(&mut run, &mut rng, thorough);
